@@ -285,11 +285,32 @@ fn check_rewrite(words: &[(u16, u16)], st: &mut Stats) {
             let f = ar.by_index_raw(i).map_err(|e| format!("by_index_raw: {e}"))?;
             b.raw_copy_file(f).map_err(|e| format!("raw_copy_file: {e}"))?;
         }
+        // the same stamps on password-protected entries (the password is the LAST option set, as a caller chaining the
+        // builder calls would), and what the streaming reader reports for the source's local headers
+        let mut d = zip::ZipWriter::new(Cursor::new(vec![]));
+        for i in 0..ar.len() {
+            let lm = ar.by_index_raw(i).map_err(|e| format!("by_index_raw: {e}"))?.last_modified();
+            use zip::unstable::write::FileOptionsExt;
+            d.start_file(format!("t{i}"), zip::write::FileOptions::default().compression_method(zip::CompressionMethod::Stored).last_modified_time(lm).with_deprecated_encryption(b"pw")).map_err(|e| format!("start_file(+password): {e}"))?;
+            d.write_all(b"x").map_err(|e| e.to_string())?;
+        }
+        let d = d.finish().map_err(|e| format!("finish: {e}"))?.into_inner();
+        {
+            let mut cur = Cursor::new(&src[..]);
+            let mut i = 0usize;
+            while let Some(f) = zip::read::read_zipfile_from_stream(&mut cur).map_err(|e| format!("streaming reader: {e}"))? {
+                let lm = f.last_modified();
+                if i < words.len() && (lm.datepart(), lm.timepart()) != words[i] {
+                    return Err(format!("entry {i}: the streaming reader reports ({:#06x},{:#06x}) for stored words ({:#06x},{:#06x})", lm.datepart(), lm.timepart(), words[i].0, words[i].1));
+                }
+                i += 1;
+            }
+        }
         let a = a.finish().map_err(|e| format!("finish: {e}"))?.into_inner();
         let b = b.finish().map_err(|e| format!("finish: {e}"))?.into_inner();
         let mut c = zip::ZipWriter::new_append(Cursor::new(src.clone())).map_err(|e| format!("new_append: {e}"))?;
         let c = c.finish().map_err(|e| format!("finish after new_append: {e}"))?.into_inner();
-        Ok(vec![("start_file(last_modified_time(read value))", a), ("raw_copy_file", b), ("new_append + finish", c)])
+        Ok(vec![("start_file(last_modified_time(read value))", a), ("raw_copy_file", b), ("new_append + finish", c), ("start_file(last_modified_time(read value) + password)", d)])
     });
     match r {
         Err(p) => st.viol(format!("rewrite/panic/{}", panic_site(&p)), format!("re-writing timestamps panicked: {p}"), case(), order),
